@@ -104,7 +104,7 @@ def check_case(acc, case, frontend) -> list[dict]:
             if code == "dangling-backref:footnote" and name == "transformed" and _in_unresolved_link(phases[0][1], detail, warn):
                 # recorded finding: docutils replaced an unresolvable '[.. [^a] ..](name)' link by a problematic node
                 code = "dangling-backref:footnote-reference-inside-unresolved-link"
-            if code == "duplicate-id" and re.match(r"'(system-message|problematic)-\d+'", detail) and re.search(r"\{contents\}|\.\. contents::", text) \
+            if code in ("duplicate-id", "id-registry-points-elsewhere") and re.match(r"'(system-message|problematic)-\d+'", detail) and re.search(r"\{contents\}|\.\. contents::", text) \
                     and transformed:
                 # recorded finding: docutils' Contents transform copies a title together with the warning MyST put inside it
                 code = "duplicate-id:title-message-copied-into-contents"
@@ -152,7 +152,7 @@ TITLES = ["a", "A", "b", "a 1", "id1", "b c", "Title *em*", "2024", "1"]
 def ids_case(draw):
     blocks = []
     for _ in range(draw(st.integers(2, 9))):
-        k = draw(st.integers(0, 15))
+        k = draw(st.integers(0, 16))
         nm = draw(st.sampled_from(NAMES))
         lab = nm.replace(" ", "-")
         if k == 0:
@@ -189,6 +189,11 @@ def ids_case(draw):
             t = draw(st.sampled_from(TITLES))
             wrapper = draw(st.sampled_from(["figure} img.png", "note}", "image} img.png", "code-block} python", "table} Cap", "epigraph}"]))
             blocks.append("```{" + wrapper + "\n## " + t + "\n```\n\n[](#" + t.lower().replace(" ", "-").replace("*", "") + ")")
+        elif k == 16:
+            # an id written on a construct that ends in an error instead of a node, and a link to that id
+            failing = draw(st.sampled_from(["[obj](inv:#nosuch-object)", "[obj](inv:a:b:c:d:e#x)", "[obj](inv:nokey#x)", "{unknownrole}`x`",
+                                            "![i](<>)", "[t](project:nosuch.md)"]))
+            blocks.append(f"{failing}{{#{lab}}} then [to it](#{lab}) and [](#{lab})")
         elif k == 14:
             blocks.append(f"[^{lab}]: def in quote\n\n> [^{lab}]: second def [^{lab}]\n\n{lab} [^{lab}]")
         else:
